@@ -1437,7 +1437,7 @@ def run_ctor_chain(prog, cls, interp=None):
     fr = Frame(init, env, SELF, cls, 0, (init.qualname,))
     fr.via_funcs = (init,)
     fr.ctor_defaults = defaults
-    it.block(init.node.body, fr)
+    it.block(flatten(prog, init).node.body, fr)
     it.ctor_params = init.params()[1:]
     it.ctor_defaults = defaults
     return it
